@@ -90,3 +90,15 @@ META["C16"] = {
 }
 ENGINES.append({"name": "component-replay", "path": "tools/compcheck.py", "serves_properties": ["C16"],
                 "kind_free_text": "TLC on the mechanism spec; harness/<pkg> in-package overlay drivers under harness/kit; TLA+ history judges"})
+
+CHECKS["C17"] = compcheck.run_c17
+META["C17"] = {
+    "engine": "component-replay",
+    "text": "the read buffer may refuse or drop a recording but never delivers an unrecorded entry, never delivers one twice, never holds more than its capacity, and the final drain at quiescence delivers every Success add: Ring.tla model-checked; behaviours and seeded schedules replayed on the real ring, the real Striped buffer is driven through stripe creation / expansion; histories judged by RingHist.tla. 'Dropping never changes results' is the independence of Cache.tla's step functions from the buffer, validated by the sequential fold with a saturated buffer",
+    "design_ref": "DESIGN.md section 6 (C17)",
+    "note": "exhaustive only for 2-4 slot rings; the striped table is checked by conformance runs, not by its own model",
+    "technique": "TLA+/PlusCal spec (Ring.tla) model-checked with TLC + replay of TLC behaviours as schedules on the real ring + TLA+ history judge (RingHist.tla)",
+}
+for e in ENGINES:
+    if e["name"] == "component-replay":
+        e["serves_properties"].append("C17")
